@@ -5,7 +5,7 @@ C01 part B2 — part 8: the public `combine_legs`: the steps of `Arr.combineLegs
 `_combine_legs_new_axes` (`combineNewAxes_unfold`: range of the new axes, `transp` as a fold of insertions),
 stable argsort of the new axes.
 -/
-namespace TenpyModel.C01B2
+namespace TenpyModel.C01B2.Comb
 open TenpyModel.Core TenpyModel.C01B
 
 variable {α : Type}
@@ -196,4 +196,4 @@ theorem foldl_order_insFold {β} (na : List Nat) (items : List β) (d : β) (ord
     rw [List.foldl_cons, ih]
     rfl
 
-end TenpyModel.C01B2
+end TenpyModel.C01B2.Comb
